@@ -109,8 +109,9 @@ def monitorRc (c : RcCase) (obs : String) : String :=
     ("C03.justified", C03 v c.upd c.pods acts (out == "ok")),
     ("C04.vacant", !wf || C04 v c.pods acts),
     -- "whose failed/succeeded pod it has just REMOVED": no create at an ordinal whose delete in this reconcile was refused
-    ("C04.removed", acts.all (fun a => match a with
-        | .create o _ => !(c.faults.contains (1, o) && acts.any (fun b => match b with | .delete o' (some _) => o' == o | _ => false))
+    ("C04.removed", (List.range acts.length).all (fun k => match acts[k]? with
+        | some (.create o _) => !(c.faults.contains (1, o) &&
+            (acts.take k).any (fun b => match b with | .delete o' (some _) => o' == o | _ => false))
         | _ => true)),
     ("C05.ordered", v.parallel || !wf || C05 v c.pods acts),
     ("C07.rolling", !wf || C07 v c.cur c.upd c.pods acts),
